@@ -250,10 +250,16 @@ class Tracer(object):
     def _scalars(self):
         s = self.solver
         try:
+            def waited(t):       # dependencies somebody waits for
+                return set(d for d, w in t._unmet.items() if len(w) > 0)
+
+            def releasable(t):   # ... that have been met and not drained yet
+                return waited(t) & set(t._met)
+            fd, idp = s._field_dependencies, s._input_dependencies
             return {"q": len(s._unattempted_fields), "vals": len(s._v.values), "forms": len(s.forms),
-                    "fdU": len(s._field_dependencies._unmet), "fdM": len(s._field_dependencies._met),
-                    "idU": len(s._input_dependencies._unmet), "idM": len(s._input_dependencies._met),
-                    "unimpl": len(s._unimplemented_fields), "refused": bool(s._refused_input),
+                    "fdU": len(waited(fd)), "fdM": len(releasable(fd)),
+                    "idU": len(waited(idp)), "idM": len(releasable(idp)),
+                    "unimpl": len(set(s._unimplemented_fields)), "refused": bool(s._refused_input),
                     "specs": len(s._input_map), "fmap": len(s._field_map), "solving": len(s._solving_fields)}
         except AttributeError as e:
             raise TracerBroken("cannot project solver state: %s" % e)
